@@ -422,7 +422,11 @@ class FedSim(object):
         name_id = saml.NameID(text=ev.get("subject", "subj-%d" % ev["f"]),
                               format=saml.NAMEID_FORMAT_PERSISTENT,
                               sp_name_qualifier=sp.entity_id)
-        sign = bool(ev.get("sign"))
+        want_sign = bool(ev.get("sign"))
+        # another product's request that leaves out the optional Destination attribute: built unsigned, the
+        # attribute removed, then signed explicitly (POST / SOAP carry the signature in the document)
+        no_dest = bool(ev.get("no_dest")) and b != "redirect"
+        sign = want_sign and not no_dest
         rec = {"sp": sp.name, "idp": idp_name, "f": ev["f"], "rb": b, "kind": kind}
         try:
             with self.world.on(sp.name):
@@ -449,6 +453,11 @@ class FedSim(object):
                         sign=sign, **alg)
                 else:
                     raise ValueError(kind)
+                if no_dest:
+                    req.destination = None
+                    self.count("dialect.request-without-destination")
+                    if want_sign:
+                        req = sp.client.sign(req, **alg)
                 info = sp.client.apply_binding(BIND[b], "%s" % req, dest, fl.relay)
         except Exception as e:
             rec["error"] = type(e).__name__
@@ -457,7 +466,7 @@ class FedSim(object):
         fl.reqid = reqid
         msg = self.capture(info, b, "SAMLRequest", sp.name)
         msg["kind"] = kind
-        msg["signed_by"] = "k%d" % sp.spec.get("actual_key", sp.spec["key"]) if sign else None
+        msg["signed_by"] = "k%d" % sp.spec.get("actual_key", sp.spec["key"]) if want_sign else None
         fl.request = msg
         rec.update({"reqid": reqid, "dest": msg["dest"], "ok": True})
         self.count("mkreq." + kind)
@@ -483,12 +492,19 @@ class FedSim(object):
         dest = fed.sp_endpoints(sp_spec)["slo_" + b]
         name_id = saml.NameID(text=ev.get("subject", "subj-%d" % ev["f"]), format=saml.NAMEID_FORMAT_PERSISTENT,
                               sp_name_qualifier=fed.sp_entity(sp_spec))
-        sign = bool(ev.get("sign"))
+        want_sign = bool(ev.get("sign"))
+        no_dest = bool(ev.get("no_dest")) and b != "redirect"
+        sign = want_sign and not no_dest
         rec = {"sp": sp_name, "idp": idp.name, "f": ev["f"], "rb": b, "kind": "logout_request", "direction": "idp2sp"}
         try:
             with self.world.on(idp.name):
                 reqid, req = idp.server.create_logout_request(dest, fed.sp_entity(sp_spec), name_id=name_id, sign=sign,
                                                               sign_alg=ev.get("sigalg"), digest_alg=ev.get("digalg"))
+                if no_dest:
+                    req.destination = None
+                    self.count("dialect.request-without-destination")
+                    if want_sign:
+                        req = idp.server.sign(req, sign_alg=ev.get("sigalg"), digest_alg=ev.get("digalg"))
                 info = idp.server.apply_binding(BIND[b], "%s" % req, dest, fl.relay)
         except Exception as e:
             rec["error"] = type(e).__name__
@@ -496,7 +512,7 @@ class FedSim(object):
             return rec
         msg = self.capture(info, b, "SAMLRequest", idp.name)
         msg["kind"] = "logout_request"
-        msg["signed_by"] = "k%d" % idp.spec.get("actual_key", idp.spec["key"]) if sign else None
+        msg["signed_by"] = "k%d" % idp.spec.get("actual_key", idp.spec["key"]) if want_sign else None
         fl.request = msg
         rec.update({"reqid": reqid, "dest": msg["dest"], "ok": True})
         self.count("mkreq.logout_request.idp2sp")
@@ -620,10 +636,34 @@ class FedSim(object):
             with w.on(idp.name):
                 ra = srv.response_args(req.message, [BINDING_SOAP])
                 nid = req.message.subject.name_id
-                resp = srv.create_attribute_response(
-                    identity, ra["in_response_to"], "", ra["sp_entity_id"], name_id=nid,
-                    sign_assertion=bool(p.get("sign_assertion")), sign_response=bool(p.get("sign_response")),
-                    sign_alg=p.get("sigalg"), digest_alg=p.get("digalg"))
+                d = p.get("dialect")
+                if d:
+                    # another attribute authority's composition: built unsigned, audience restrictions set, then
+                    # signed explicitly
+                    resp = srv.create_attribute_response(identity, ra["in_response_to"], "", ra["sp_entity_id"],
+                                                         name_id=nid, sign_assertion=False, sign_response=False)
+                    a = resp.assertion[0] if isinstance(resp.assertion, list) else resp.assertion
+                    if "audiences" in d:
+                        a.conditions.audience_restriction = [
+                            saml.AudienceRestriction(audience=[saml.Audience(
+                                text=(ra["sp_entity_id"] if x == "$sp" else x)) for x in grp]) for grp in d["audiences"]]
+                    to_sign = []
+                    if p.get("sign_assertion"):
+                        a.signature = pre_signature_part(a.id, srv.sec.my_cert, 1, sign_alg=p.get("sigalg"),
+                                                         digest_alg=p.get("digalg"))
+                        to_sign.append((class_name(a), a.id))
+                    if p.get("sign_response"):
+                        resp.signature = pre_signature_part(resp.id, srv.sec.my_cert, 1, sign_alg=p.get("sigalg"),
+                                                            digest_alg=p.get("digalg"))
+                        to_sign.append((class_name(resp), resp.id))
+                    if to_sign:
+                        resp = signed_instance_factory(resp, srv.sec, to_sign)
+                    self.count("dialect.attribute-response")
+                else:
+                    resp = srv.create_attribute_response(
+                        identity, ra["in_response_to"], "", ra["sp_entity_id"], name_id=nid,
+                        sign_assertion=bool(p.get("sign_assertion")), sign_response=bool(p.get("sign_response")),
+                        sign_alg=p.get("sigalg"), digest_alg=p.get("digalg"))
                 http = srv.apply_binding(BINDING_SOAP, "%s" % resp, "", "", response=True)
         except Exception as e:
             rec["error"] = type(e).__name__
@@ -698,9 +738,14 @@ class FedSim(object):
         rec.update({"irt": ra.get("in_response_to"), "dest": ra.get("destination"),
                     "sp_entity": ra.get("sp_entity_id"), "p": p})
         lifetime = p.get("lifetime", 900)
-        pol = Policy({"default": {"lifetime": {"seconds": lifetime}, "attribute_restrictions": None,
-                                  "name_form": NAME_FORMAT_URI,
-                                  "nameid_format": p.get("nameid_format") or saml.NAMEID_FORMAT_TRANSIENT}})
+        pol_conf = {"default": {"lifetime": {"seconds": lifetime}, "attribute_restrictions": None,
+                                "name_form": NAME_FORMAT_URI,
+                                "nameid_format": p.get("nameid_format") or saml.NAMEID_FORMAT_TRANSIENT}}
+        if p.get("sp_policy_section") and ra.get("sp_entity_id"):
+            # a section of its own for this SP that sets one option only: everything else comes from "default"
+            pol_conf[ra["sp_entity_id"]] = {"nameid_format": pol_conf["default"]["nameid_format"]}
+            self.count("probe.policy-section-for-sp")
+        pol = Policy(pol_conf)
         authn = {"class_ref": p.get("authn_class", fed.AUTHN_PASSWORD), "authn_auth": idp.entity_id}
         sign_r, sign_a, enc = bool(p.get("sign_response")), bool(p.get("sign_assertion")), bool(p.get("encrypt"))
         dialect = p.get("dialect")
